@@ -1,4 +1,5 @@
 import DG.Erase
+import DG.Leave
 /-!
 # C10 — fast-check output has no executable logic and needs no type inference
 
@@ -372,6 +373,82 @@ theorem accessor_typed (name : String) (access : Access) (isStatic : Bool) (ty :
 theorem untyped_accessor_is_diagnostic (name : String) (isStatic : Bool) (seen : List String) :
     transformMember (.accessor name .pub isStatic none (some .opaque)) seen = .error .missingType := by
   simp [transformMember, inferType]
+
+/-! ## what is left in place has no logic in it (`DG/Leave.lean`)
+
+`leavable` is the analysis `maybe_transform_expr_if_leavable`; `NoLogic` says that nothing that
+stays in the output is a call, `new`, sequence, assignment, tagged template, class, optional chain,
+private member access or object method — at any depth, in any element, property value, computed key
+or template substitution.  The two coincide for every expression, so an initialiser whose type is
+not inferable is either left and free of logic, or a diagnostic. -/
+section leave
+open DG.Leave
+
+mutual
+theorem leavable_iff_noLogic : ∀ e : LExpr, Leave.leavable e = true ↔ NoLogic e
+  | .atom => by simp [Leave.leavable, NoLogic]
+  | .logic => by simp [Leave.leavable, NoLogic]
+  | .arr es => by simpa [Leave.leavable, NoLogic] using leavableElems_iff es
+  | .obj ps => by simpa [Leave.leavable, NoLogic] using leavableProps_iff ps
+  | .unary a => by simpa [Leave.leavable, NoLogic] using leavable_iff_noLogic a
+  | .update a => by simpa [Leave.leavable, NoLogic] using leavable_iff_noLogic a
+  | .bin l r => by
+    simp only [Leave.leavable, NoLogic, Bool.and_eq_true, leavable_iff_noLogic l, leavable_iff_noLogic r]
+  | .cond t c a => by
+    simp only [Leave.leavable, NoLogic, Bool.and_eq_true, leavable_iff_noLogic t, leavable_iff_noLogic c,
+      leavable_iff_noLogic a, and_assoc]
+  | .member o => by simpa [Leave.leavable, NoLogic] using leavable_iff_noLogic o
+  | .memberPrivate _ => by simp [Leave.leavable, NoLogic]
+  | .memberComputed o k => by
+    simp only [Leave.leavable, NoLogic, Bool.and_eq_true, leavable_iff_noLogic o, leavable_iff_noLogic k]
+  | .await a => by simpa [Leave.leavable, NoLogic] using leavable_iff_noLogic a
+  | .paren e => by simpa [Leave.leavable, NoLogic] using leavable_iff_noLogic e
+  | .asT _ => by simp [Leave.leavable, NoLogic]
+  | .constAssertion e => by simpa [Leave.leavable, NoLogic] using leavable_iff_noLogic e
+  | .nonNull e => by simpa [Leave.leavable, NoLogic] using leavable_iff_noLogic e
+  | .satisfies e => by simpa [Leave.leavable, NoLogic] using leavable_iff_noLogic e
+  | .tpl subs => by simpa [Leave.leavable, NoLogic] using leavableElems_iff subs
+  | .fn => by simp [Leave.leavable, NoLogic]
+theorem leavableElems_iff : ∀ es : LElems, leavableElems es = true ↔ NoLogicElems es
+  | .nil => by simp [leavableElems, NoLogicElems]
+  | .hole rest => by simpa [leavableElems, NoLogicElems] using leavableElems_iff rest
+  | .cons e rest => by
+    simp only [leavableElems, NoLogicElems, Bool.and_eq_true, leavable_iff_noLogic e, leavableElems_iff rest]
+theorem leavableProp_iff : ∀ p : LProp, leavableProp p = true ↔ NoLogicProp p
+  | .shorthand => by simp [leavableProp, NoLogicProp]
+  | .kv v => by simpa [leavableProp, NoLogicProp] using leavable_iff_noLogic v
+  | .kvComputed k v => by
+    simp only [leavableProp, NoLogicProp, Bool.and_eq_true, leavable_iff_noLogic k, leavable_iff_noLogic v]
+  | .assign v => by simpa [leavableProp, NoLogicProp] using leavable_iff_noLogic v
+  | .method => by simp [leavableProp, NoLogicProp]
+  | .spread e => by simpa [leavableProp, NoLogicProp] using leavable_iff_noLogic e
+theorem leavableProps_iff : ∀ ps : LProps, leavableProps ps = true ↔ NoLogicProps ps
+  | .nil => by simp [leavableProps, NoLogicProps]
+  | .cons p rest => by
+    simp only [leavableProps, NoLogicProps, Bool.and_eq_true, leavableProp_iff p, leavableProps_iff rest]
+end
+
+/-- **an initialiser that is left in the output contains no logic** -/
+theorem left_initialiser_has_no_logic (e : LExpr) (h : Leave.leavable e = true) : NoLogic e :=
+  (leavable_iff_noLogic e).mp h
+
+/-- **position does not matter**: one substitution with logic in it makes the whole template a
+diagnostic, wherever it stands among the substitutions (the loop stops at the first one; a loop
+that let the last substitution decide would leave `` `${f()}${1}` `` in the output) -/
+theorem template_with_logic_is_diagnostic (pre post : LElems) (e : LExpr) (h : Leave.leavable e = false) :
+    ∀ (join : LElems → LElems → LElems)
+      (_ : ∀ a b, leavableElems (join a b) = (leavableElems a && leavableElems b)),
+      Leave.leavable (.tpl (join pre (.cons e post))) = false := by
+  intro join hj
+  simp [Leave.leavable, hj, leavableElems, h]
+
+/-- `e as T` is always left, and nothing of `e` stays -/
+theorem as_is_left (e : LExpr) : Leave.leavable (.asT e) = true ∧ NoLogic (.asT e) := ⟨rfl, trivial⟩
+
+/-- non-vacuity: `` [`id-${f()}-${1}`] `` is a diagnostic, `[y + 1, { a: Math.PI }]` is left -/
+example : Leave.leavable (.arr (.cons (.tpl (.cons .logic (.cons .atom .nil))) .nil)) = false := by decide
+example : Leave.leavable (.arr (.cons (.bin .atom .atom) (.cons (.obj (.cons (.kv (.member .atom)) .nil)) .nil))) = true := by decide
+end leave
 
 /-! non-vacuity: `function f(a: number, b = "x", ...r: string[]) { }` -/
 example :
